@@ -249,8 +249,14 @@ _BPQ = _cls_methods(BPQ, 'boltons.queueutils', [
 for _sp in _BPQ:
     _sp['gen_file'] = 'queueutils_bpq'
 
+# C03 (lock discipline of LRI / LRU) is anchored in the same methods: the same generated definitions, the ties restated
+# under C03 names in lean/BoltonsVerif/C03/SrcTie.lean together with the serializability of the generated machine.
+# (Copies of the C02 specs that differ in `tie_theorem` only; `py2lean.generate` emits one definition per `lean_name`.)
+_C03 = [dict(_sp, tie_theorem=_sp['tie_theorem'].replace('C02.', 'C03.')) for _sp in _LRI + _LRU]
+
 SPECS = {
     'C02': _LRI + _LRU,
+    'C03': _C03,
     'C20': _TC,
     'C17': _OTO + _M2M,
     'C09': [
